@@ -311,8 +311,15 @@ def check_stable(pid, tier, seed):
         h += [{"op": "getk", "key": 1}, {"op": "getk", "key": 2, "u64": True}, {"op": "getk", "key": 3}]
     jobs = we.make_jobs(allw, "seq", [96], ["ident"], seed, prefix="s", probeEach=True)
     real = allw[:(150, 2500)[ti]]
+    # on real bolt: large values (the bucket leaves bolt's inline form) and a long tail of Sets, so that a value
+    # returned by Get that still points into bolt's pages is seen to change
+    big = [[{"op": "set", "key": 3, "val": 100 + (k % 40)}, {"op": "getk", "key": 3}] + h +
+           [{"op": "set", "key": 3, "val": 150 + (k % 40)}, {"op": "set", "key": 1, "val": 101}, {"op": "getk", "key": 3},
+            {"op": "set", "key": 3, "val": 200 + (k % 40)}, {"op": "set", "key": 1, "val": 102}, {"op": "store", "rel": True, "n": 1, "sz": [1]}]
+           for k, h in enumerate(real[:(60, 600)[ti]])]
     jobs += we.make_jobs(real, "seq", [96], ["ident"], seed, prefix="r", probeEach=True, real=True, snapshotEach=True,
                          keys=[1, 3])
+    jobs += we.make_jobs(big, "seq", [96], ["ident"], seed, prefix="rb", probeEach=True, real=True, keys=[1, 3])
     eng.stats["distinct_seq"] = len({json.dumps(j["steps"], sort_keys=True) for j in jobs})
     log("%s: %d sim jobs, %d real-bolt jobs" % (pid, len(allw), len(real)))
     eng.final(jobs + we.corpus_jobs(pid), "k")
